@@ -426,6 +426,20 @@ func probeFramework() ([]string, error) {
 	return out, nil
 }
 
+// typeClass says what kind of generated type a diagnostic is about.
+func typeClass(t string) string {
+	t = strings.TrimLeft(t, "*[]")
+	switch {
+	case frameworkIdents[t]:
+		return t
+	case strings.HasSuffix(t, "StatusCode"):
+		return "status-code-wrapper"
+	case strings.HasPrefix(t, "OptNil"), strings.HasPrefix(t, "Opt"), strings.HasPrefix(t, "Nil"):
+		return "generic-wrapper"
+	}
+	return "generated-type"
+}
+
 // diagClass names the kind of the first compiler diagnostic.
 func diagClass(diag string) string {
 	first := ""
@@ -495,7 +509,19 @@ func diagClass(diag string) string {
 	case strings.Contains(msg, "syntax error"), strings.HasPrefix(msg, "expected "):
 		return "syntax"
 	case strings.Contains(msg, "duplicate case"):
+		// duplicate case *T in type switch
+		f := strings.Fields(msg[strings.Index(msg, "duplicate case")+len("duplicate case"):])
+		if len(f) > 0 {
+			return "duplicate-case/" + typeClass(f[0])
+		}
 		return "duplicate-case"
+	case strings.Contains(msg, "does not implement"):
+		// cannot use x (value of type *T) as I value ...: *T does not implement I (missing method m)
+		if i := strings.Index(msg, "(value of type "); i >= 0 {
+			t := strings.SplitN(msg[i+len("(value of type "):], ")", 2)[0]
+			return "not-implementing-interface/" + typeClass(t)
+		}
+		return "not-implementing-interface"
 	case strings.Contains(msg, "duplicate field"), strings.Contains(msg, "duplicate key"), strings.Contains(msg, "duplicate method"), strings.Contains(msg, "duplicate index"):
 		return "duplicate-member"
 	case strings.Contains(msg, "cannot use"), strings.Contains(msg, "mismatched types"), strings.Contains(msg, "cannot convert"):
